@@ -2797,7 +2797,20 @@ func NewValArg(in []byte) *SQLVal {
 func (node *SQLVal) Format(buf *TrackedBuffer) {
 	switch node.Type {
 	case StrVal:
-		sqltypes.MakeTrusted(sqltypes.VarBinary, node.Val).EncodeSQL(buf)
+		// Escape exactly what the tokenizer unescapes (\', \\ and \n), so that the printed literal reads back as the same string.
+		buf.WriteByte('\'')
+		for _, ch := range node.Val {
+			switch ch {
+			case '\'', '\\':
+				buf.WriteByte('\\')
+				buf.WriteByte(ch)
+			case '\n':
+				buf.WriteString("\\n")
+			default:
+				buf.WriteByte(ch)
+			}
+		}
+		buf.WriteByte('\'')
 	case IntVal, FloatVal, HexNum:
 		buf.Myprintf("%s", []byte(node.Val))
 	case HexVal:
